@@ -474,6 +474,14 @@ def rule_F(ck, units):
                 key = '%s|%s' % (f.q, f.where(c).split(':')[0])
                 if f.cls.startswith('amgcl::mpi'):
                     continue      # distributed matrices are sorted by their own product
+                # the operands of the Galerkin product are sorted too: the row-merge SpGEMM (selected above 16 threads) merges the rows of the
+                # right factor and needs them sorted; setup sorts P and R right after transfer_operators
+                if f.q.endswith('step_down'):
+                    for ai, role in ((1, 'P'), (2, 'R')):
+                        r_ = an.root_of_expr(f, c['a'][ai]) if len(c.get('a', [])) > ai else None
+                        so = [s_ for s_ in f.calls() if (s_.get('f') or '').endswith('sort_rows') and s_['i'] < c['i'] and an.root_of_expr(f, s_['a'][0]) == r_]
+                        ck.ob('F.coarse-operator-sorted', '%s|%s' % (f.q, role), f.where(c), bool(so),
+                              '' if so else 'the transfer operator %s handed to coarse_operator at %s was not passed to sort_rows: the row-merge SpGEMM (more than 16 threads) merges unsorted rows' % (role, f.where(c)))
                 ck.ob('F.coarse-operator-sorted', '%s' % f.q, f.where(c), bool(sorted_after),
                       '' if sorted_after else 'the coarse operator computed at %s is not passed to sort_rows: the next level is built from unsorted rows (its sibling %s sorts it)' % (
                           f.where(c), 'level::rebuild' if f.q.endswith('step_down') else 'level::step_down'))
